@@ -21,7 +21,12 @@ RULE = ('detect: contents written by the real writers (fasta, stockholm, gff, sj
         'text file / path, with sep / outfmt options.  ext: every declared extension and near misses.  resolve: names x archive option. '
         'kw: keyword dicts through every shortcut.  extarg / wresolve: detect_ext on non-string arguments and the write-side decision '
         '(to string / handle / file / archive, format from fmt or extension).  render: the writer / renderer models of the soundness '
-        'theorems (render_xsv, render_fasta, render_stockholm, render_gff, render_hits) against the real writers.  non-trivial = distinct case that is detected as some format, or takes a non-plain '
+        'theorems (render_xsv, render_fasta, render_stockholm, render_gff, render_hits) against the real writers.  hist: histories of 4-20 calls in one process on shared BytesIO/StringIO handles '
+        '(same detect twice, other options / other chain in both orders, fresh handle, in-place same-length edit then detect again, '
+        'the same handle read twice and iterated, mutation of a read result, detect_ext with alternating what, one object written with '
+        'several keyword dicts, archive/gzip round trips), each detect/ext step compared with the pure model on the content the handle '
+        'holds at that moment; after every step the plugin tables (FMTS, FMTS_ALL, EPS names, ARCHIVE_EXTS, extension lists, header tables) '
+        'must be unchanged, option dicts unchanged, handles open, and a private tempfile.tempdir empty.  non-trivial = distinct case that is detected as some format, or takes a non-plain '
         'resolve branch, or carries a consumed keyword')
 TRUSTED = ['CPython io (TextIOWrapper/BytesIO/StringIO), gzip, shutil, glob, tempfile, zipfile/tarfile, pathlib: transports are '
            'differential-tested only (extra_checks), never proved',
@@ -362,6 +367,258 @@ def mutate(rng, s):
     return s.split('\n', 1)[-1]
 
 
+
+# ----------------------------------------------------------------------------- histories (state independence)
+
+def _module_state():
+    """The plugin tables and priority lists that no call may change."""
+    import copy
+    import sugar._io.util as U
+    import sugar._io.main as M
+    import sugar._io.tab.core as T
+    import sugar._io.tab.infernal as I
+    exts = {}
+    for what in ('seqs', 'fts'):
+        suf = '' if what == 'seqs' else '_fts'
+        for fmt in U.FMTS_ALL[what]:
+            m = U.EPS[what][fmt].load()
+            exts[what + ':' + fmt] = copy.deepcopy(getattr(m, 'filename_extensions%s_%s' % (suf, fmt), None))
+    return {'FMTS': copy.deepcopy(U.FMTS), 'FMTS_ALL': copy.deepcopy(U.FMTS_ALL), 'same_tables': M.FMTS_ALL is U.FMTS_ALL and M.EPS is U.EPS,
+            'ARCHIVE_EXTS': list(U.ARCHIVE_EXTS), 'main.ARCHIVE_EXTS': list(M.ARCHIVE_EXTS), 'EPS': {k: sorted(v.names) for k, v in U.EPS.items()},
+            'exts': exts, 'DEFAULT_OUTFMT': copy.deepcopy(T._DEFAULT_OUTFMT), 'MMSEQS': list(T._MMSEQS_HEADER_NAMES),
+            'HEADER': {k: [tuple(h) for h in v] for k, v in T._HEADER.items()}, 'CONVERTH': copy.deepcopy(T._CONVERTH),
+            'copyattrs': list(T.copyattrs), 'HEADER_KW': sorted(I._HEADER_KW)}
+
+
+def _mk_handle(kind, text):
+    return io.BytesIO(text.encode('latin-1')) if kind == 'bytes' else io.StringIO(text, newline='')
+
+
+def _hist_step(case, st, handles, texts):
+    import sugar
+    from sugar._io import detect, detect_ext
+    op = st['op']
+    if op in ('detect', 'detect_fresh'):
+        kw = {k: st[k] for k in ('sep', 'outfmt') if st.get(k) is not None}
+        f = handles[st['h']] if op == 'detect' else _mk_handle(st['kind'], texts[st['t']])
+        f.seek(st['offset'])
+        before = f.tell()
+        kw0 = dict(kw)
+        fmt = detect(f, st['what'], **kw)
+        assert kw == kw0, 'options dict changed by detect'
+        assert not f.closed, 'handle closed'
+        return [fmt, f.tell() - before + st['offset']]
+    if op == 'edit':
+        f = handles[st['h']]
+        new = texts[st['t']]
+        f.seek(0)
+        f.write(new.encode('latin-1') if isinstance(f, io.BytesIO) else new)
+        f.seek(0)
+        got = f.read()
+        got = got.decode('latin-1') if isinstance(got, bytes) else got
+        assert got == new, 'harness: in-place edit must keep the length'
+        return 'ok'
+    if op == 'ext':
+        return detect_ext(st['fname'], st['what'])
+    if op == 'read':
+        rd = sugar.read if st['what'] == 'seqs' else sugar.read_fts
+        rkw = dict(st.get('rkw') or {})
+        f = handles[st['h']]
+        text = f.getvalue()
+        text = text.decode('latin-1') if isinstance(text, bytes) else text
+        ref = _cj(rd(_mk_handle('bytes', text), **rkw))
+        for i in range(2):                       # the same handle read twice
+            f.seek(0)
+            rkw0 = dict(rkw)
+            got = _cj(rd(f, **rkw))
+            assert rkw == rkw0, 'options dict changed by read'
+            assert not f.closed, 'handle closed by read'
+            assert got == ref, 'read #%d of the same handle differs from a fresh handle' % (i + 1)
+        if st['what'] == 'seqs':
+            f.seek(0)
+            assert _cj(sugar.BioBasket(list(sugar.iter_(f, **rkw)))) == ref, 'iter_ after read on the same handle differs'
+        # mutating what was read must not influence a later read
+        f.seek(0)
+        o1 = rd(f, **rkw)
+        if len(o1):
+            if st['what'] == 'seqs':
+                o1[0].data = 'MUTATED'
+                o1[0].meta['x'] = 1
+            else:
+                o1[0].meta['x'] = 1
+                o1.data.pop()
+        f.seek(0)
+        assert _cj(rd(f, **rkw)) == ref, 'a later read is influenced by mutating the result of an earlier one'
+        return 'ok'
+    if op == 'write':
+        w = st['w']
+        mk = (lambda: mk_basket(w['obj'])) if w['what'] == 'seqs' else (lambda: mk_fts(w['obj']))
+        obj = mk()
+        snap = _cj(obj)
+        for kw in st['kws']:
+            kw1 = json.loads(json.dumps(kw))
+            a = obj.tofmtstr(w['fmt'], **kw1)
+            assert kw1 == kw, 'keyword dict changed by tofmtstr'
+            assert _cj(obj) == snap, 'object changed by writing it'
+            assert a == mk().tofmtstr(w['fmt'], **kw), 'output depends on what was written before (kw=%r)' % (kw,)
+            s_ = io.StringIO()
+            obj.write(s_, w['fmt'], **kw1)
+            assert s_.getvalue() == a, 'write(handle) differs from tofmtstr after earlier calls'
+        return 'ok'
+    if op == 'archive':
+        w = st['w']
+        obj = mk_basket(w['obj']) if w['what'] == 'seqs' else mk_fts(w['obj'])
+        rd = sugar.read if w['what'] == 'seqs' else sugar.read_fts
+        d = tempfile.mkdtemp(prefix='C03-ha-', dir='/tmp')     # explicit dir: not inside the watched private temp dir
+        try:
+            p = os.path.join(d, 'a.' + EXT[w['fmt']])
+            ref = _cj(rd(io.StringIO(obj.tofmtstr(w['fmt']))))
+            for arch, aext in ((st['arch'], {'zip': '.zip', 'gztar': '.tar.gz', 'tar': '.tar'}[st['arch']]),):
+                obj.write(p, archive=arch)
+                for i in range(2):
+                    assert _cj(rd(p + aext)) == ref, 'archive read #%d differs' % (i + 1)
+                assert _cj(rd(os.path.join(d, '*' + aext))) == ref, 'glob over the archive differs'
+            with gzip.open(p + '.gz', 'wb') as g:
+                g.write(obj.tofmtstr(w['fmt']).encode('latin-1'))
+            assert _cj(rd(p + '.gz')) == ref, 'gzip read differs'
+        finally:
+            shutil.rmtree(d, ignore_errors=True)
+        return 'ok'
+    raise ValueError(op)
+
+
+def impl_hist(case):
+    texts = case['texts']
+    handles = [_mk_handle(h['kind'], texts[h['t']]) for h in case['handles']]
+    state0 = _module_state()
+    priv = tempfile.mkdtemp(prefix='C03-hist-', dir='/tmp')
+    old = tempfile.tempdir
+    tempfile.tempdir = priv                      # everything sugar creates through tempfile lands here
+    out = []
+    try:
+        for st in case['steps']:
+            try:
+                r = _hist_step(case, st, handles, texts)
+            except AssertionError as e:
+                r = 'FAIL: %s' % e
+            except Exception as e:
+                r = 'FAIL: raised %s' % type(e).__name__ if st['op'] not in ('detect', 'detect_fresh', 'ext') else {'e': type(e).__name__}
+            problems = []
+            if _module_state() != state0:
+                now = _module_state()
+                problems.append('module tables changed: %s' % [k for k in state0 if state0[k] != now[k]])
+            left = os.listdir(priv)
+            if left:
+                problems.append('temporary files left behind: %s' % left[:3])
+                for x in left:
+                    shutil.rmtree(os.path.join(priv, x), ignore_errors=True)
+                    if os.path.exists(os.path.join(priv, x)):
+                        os.remove(os.path.join(priv, x))
+            out.append(r if not problems else 'FAIL: ' + '; '.join(problems))
+    finally:
+        tempfile.tempdir = old
+        shutil.rmtree(priv, ignore_errors=True)
+    return out
+
+
+def _hist_model_steps(case):
+    texts = case['texts']
+    cur = [texts[h['t']] for h in case['handles']]
+    kinds = [h['kind'] for h in case['handles']]
+    terms = []
+    for st in case['steps']:
+        op = st['op']
+        if op in ('detect', 'detect_fresh'):
+            content = cur[st['h']] if op == 'detect' else texts[st['t']]
+            kind = kinds[st['h']] if op == 'detect' else st['kind']
+            terms.append('(HDetect %s %s %s %s %s %s)' % (coq_N(WHAT[st['what']]), _optbyte(st.get('sep')), coq_opt(st.get('outfmt'), coq_bs),
+                                                         coq_bool(kind == 'bytes'), coq_nat(st['offset']), coq_bs(content)))
+        elif op == 'ext':
+            terms.append('(HExt %s %s)' % (coq_N(WHAT[st['what']]), coq_bs(st['fname'])))
+        else:
+            if op == 'edit':
+                cur[st['h']] = texts[st['t']]
+            terms.append('HOk')
+    return terms
+
+
+def _variants(rng, c):
+    """Same-length variants of a content (plausible cache-key collisions)."""
+    vs = []
+    if c:
+        vs.append(rng.choice('x;%') + c[1:])
+        i = rng.randrange(len(c))
+        vs.append(c[:i] + rng.choice('0x\t,') + c[i + 1:])
+    if ',' in c:
+        vs.append(c.replace(',', '\t'))
+    if '\t' in c:
+        vs.append(c.replace('\t', ','))
+    return vs or [c]
+
+
+def r_history(rng):
+    texts, readable = [], {}
+    for _ in range(rng.choice([1, 2, 2])):
+        if rng.random() < 0.6:
+            w = r_writer_case(rng)
+            w.pop('kw', None)
+            c = write_content(w)
+            readable[len(texts)] = {'what': w['what'], 'rkw': {}, 'w': w}
+        else:
+            kind = rng.choice([k for k in SYNTH if k != 'blast6low'])
+            c = synth(rng, kind)
+            readable[len(texts)] = {'what': 'fts', 'rkw': {'sep': ','} if kind == 'blast10' else {}}
+        texts.append(c)
+        texts.extend(_variants(rng, c)[:2])
+    handles = [{'kind': rng.choice(['bytes', 'str']), 't': t} for t in readable]
+    cur = [h['t'] for h in handles]
+    steps = []
+    optsets = [{}, {}, {'sep': ','}, {'sep': '\t'}, {'outfmt': 'qseqid sseqid pident length mismatch gapopen qstart qend sstart send evalue bitscore'}]
+    for _ in range(rng.choice([4, 6, 9])):
+        k = rng.random()
+        hi = rng.randrange(len(handles))
+        if k < 0.45:
+            o = rng.choice(optsets)
+            st = dict({'op': 'detect', 'h': hi, 'what': rng.choice(['seqs', 'fts', 'fts']), 'sep': None, 'outfmt': None,
+                       'offset': rng.choice([0, 0, 0, min(3, len(texts[cur[hi]]))])}, **o)
+            steps.append(st)
+            r = rng.random()
+            if r < 0.3:
+                steps.append(dict(st))                                       # the same call twice
+            elif r < 0.6:
+                o2 = rng.choice(optsets)                                     # other options / other chain, then the first again
+                steps.append(dict(st, sep=o2.get('sep'), outfmt=o2.get('outfmt'), what=rng.choice(['seqs', 'fts'])))
+                steps.append(dict(st))
+            elif r < 0.8:
+                steps.append(dict(st, op='detect_fresh', t=cur[hi], kind=handles[hi]['kind']))
+        elif k < 0.6:
+            same = [t for t in range(len(texts)) if len(texts[t]) == len(texts[cur[hi]]) and t != cur[hi]]
+            if same:
+                t = rng.choice(same)
+                steps.append({'op': 'edit', 'h': hi, 't': t})
+                cur[hi] = t
+                steps.append({'op': 'detect', 'h': hi, 'what': rng.choice(['seqs', 'fts']), 'sep': rng.choice([None, None, ',']), 'outfmt': None,
+                              'offset': 0})
+        elif k < 0.72:
+            fn = rng.choice(['a.gff', 'x.tsv', 'd/y.fasta', 'z.csv', 'q.json', 'a.stk'])
+            for what in rng.choice([['seqs', 'fts', 'seqs'], ['fts', 'seqs', 'fts'], ['fts', 'fts']]):
+                steps.append({'op': 'ext', 'fname': fn, 'what': what})
+        elif k < 0.85:
+            if cur[hi] in readable:
+                steps.append({'op': 'read', 'h': hi, 'what': readable[cur[hi]]['what'], 'rkw': readable[cur[hi]]['rkw']})
+        elif k < 0.95:
+            w = r_writer_case(rng)
+            w.pop('kw', None)
+            alt = {'gff': [{'header': '#!a\n'}, {}], 'tsv': [{'keys': 'start stop'}, {'keys': 'type start len'}, {}],
+                   'csv': [{'keys': 'start stop'}, {}, {'keys': 'seqid start stop'}]}.get(w['fmt'], [{}])
+            kws = [rng.choice(alt) for _ in range(3)]
+            steps.append({'op': 'write', 'w': w, 'kws': kws})
+        else:
+            w = r_writer_case(rng)
+            w.pop('kw', None)
+            steps.append({'op': 'archive', 'w': w, 'arch': rng.choice(['zip', 'gztar', 'tar'])})
+    return {'kind': 'hist', 'texts': texts, 'handles': handles, 'steps': steps}
+
 # ----------------------------------------------------------------------------- case generation
 
 HKINDS = ['bytes', 'str', 'fileb', 'filet', 'path', 'Path']
@@ -444,6 +701,9 @@ def gen_cases(rng, tier):
         if rng.random() < 0.25:
             opts['sep'] = rng.choice([',', '\t', ' ', ';'])
         cases.append(detect_case(rng, content, rng.choice(['seqs', 'fts', 'fts']), opts=opts))
+    # --- histories: several calls in one process on shared handles / objects / option dicts (state independence)
+    for _ in range(1500 if thorough else 260):
+        cases.append(r_history(rng))
     # --- renderer models of the soundness theorems against the real writers / the synthetic renderers
     for _ in range(1200 if thorough else 150):
         k = rng.choice(['tsv', 'csv', 'tsv', 'csv', 'fasta', 'stockholm', 'gff', 'hits'])
@@ -875,6 +1135,8 @@ def impl(case):
         return impl_kw(case)
     if k == 'render':
         return impl_render(case)
+    if k == 'hist':
+        return impl_hist(case)
     if k == 'writerfail':
         return {'e': case['err']}
     if k == 'transport':
@@ -920,6 +1182,8 @@ def model_term(case):
     if k == 'kw':
         kw = coq_list(['(%s, %s)' % (coq_bs(a), coq_bs(json.dumps(b))) for a, b in case['kw']])
         return 'out (run_C03_kw %s %s %s)' % (coq_N(WHAT[case['what']]), ENTRIES[case['entry']], kw)
+    if k == 'hist':
+        return 'out (run_C03_hist %s)' % coq_list(_hist_model_steps(case))
     if k == 'render':
         fmt = case['fmt']
         if fmt in ('tsv', 'csv'):
@@ -971,6 +1235,31 @@ def spec(case, got):
         if case.get('expect') and _pristine(case) and fmt != case['expect']:
             return 'content written as %s is detected as %r' % (case['expect'], fmt)
         return None
+    if k == 'hist':
+        if isinstance(got, dict):
+            return 'history raised %s' % got['e']
+        for i, (st, r) in enumerate(zip(case['steps'], got)):
+            if isinstance(r, str) and r.startswith('FAIL'):
+                return 'step %d (%s): %s' % (i, st['op'], r)
+            if st['op'] in ('detect', 'detect_fresh') and isinstance(r, list) and r[1] != st['offset']:
+                return 'step %d: handle position after detect is %r, was %r' % (i, r[1], st['offset'])
+        # equal calls give equal answers, whatever happened in between (handle content permitting)
+        seen = {}
+        cur = [h['t'] for h in case['handles']]
+        for i, (st, r) in enumerate(zip(case['steps'], got)):
+            if st['op'] == 'edit':
+                cur[st['h']] = st['t']
+            if st['op'] in ('detect', 'detect_fresh'):
+                t = cur[st['h']] if st['op'] == 'detect' else st['t']
+                key = json.dumps([case['texts'][t], st['what'], st.get('sep'), st.get('outfmt'), st['offset']])
+            elif st['op'] == 'ext':
+                key = json.dumps([st['fname'], st['what']])
+            else:
+                continue
+            if key in seen and seen[key] != r:
+                return 'step %d (%s) answers %r, the same call answered %r before' % (i, st['op'], r, seen[key])
+            seen[key] = r
+        return None
     if k == 'ext':
         # first principles: the text after the last dot of the last path component decides
         name = case['fname'].rsplit('/', 1)[-1]
@@ -1010,6 +1299,8 @@ def nontrivial(case, got):
         return 'wresolve:%s' % (got[0] if isinstance(got, list) else got.get('e'))
     if k == 'extarg':
         return 'extarg:%s' % case['ft']
+    if k == 'hist':
+        return 'hist:' + ','.join(sorted(set(st['op'] for st in case['steps'])))
     if k == 'render':
         return 'render:%s:%s' % (case['fmt'], 'long' if isinstance(got, str) and len(got) > 1000 else 'short')
     if k == 'kw':
@@ -1030,6 +1321,8 @@ def histkey(case, got):
             keys.append('offset>0')
     elif k == 'resolve':
         keys.append('resolve->%s' % ('/'.join(map(str, got[:2] if got[0] == 'url' else got[:1])) if isinstance(got, list) and got else 'exc'))
+    elif k == 'hist':
+        keys += ['hist-step=' + st['op'] for st in case['steps']]
     elif k == 'wresolve':
         keys.append('wresolve->%s' % (got[0] if isinstance(got, list) and got else 'exc'))
     elif k == 'kw':
@@ -1230,7 +1523,7 @@ def _viol(case, implval, why):
     return {'case': case, 'impl': implval, 'model': None, 'wf': True, 'evaluated': False, 'noshrink': True, 'spec': why}
 
 
-NO_SHRINK_KEYS = ('w', 'origin', 'expect', 'h', 'what', 'kind', 'entry', 'ft', 'fmt')
+NO_SHRINK_KEYS = ('w', 'origin', 'expect', 'h', 'what', 'kind', 'entry', 'ft', 'fmt', 'texts', 'handles', 'op', 't', 'kws', 'rkw', 'arch')
 
 
 def extra_checks(rng, tier, cov):
